@@ -19,7 +19,7 @@ for pid in props:
         "replay_cmd_template": "./check replay {path}",
         "engine": "nssvc",
         "level_claimed": {"category": c["level"], "text": c["text"], "design_ref": c.get("design_ref", "DESIGN.md section 4.%s" % pid)},
-        "level_note": c["note"],
+        "level_note": c["note"] + " Dimensions that are not part of the contract's state -- numeric type of the arguments, special batch sizes, process boundaries, call history across objects and runs, exact floating-point boundaries -- are covered only by the stated bounded native designs (listed in the evidence under bounded_standins, never counted as proved).",
         "technique": c["technique"],
     })
 na = [{"property_id": p, "reason": NOT_APPLICABLE[p]} for p in props if p not in CHECKS]
